@@ -4,55 +4,34 @@ Model: `Model/Prec.lean` (level-by-level recursive descent + left fold), spec:
 `Spec/Prec.lean` (`WellGrouped`).  The level table of the real grammar is regenerated
 from src/syntax/src/expressions.rs on every run (`Gen/PrecLevels.lean`).
 -/
-import MechVerif.Lemmas.Prec
+import MechVerif.Lemmas.Formula
 import MechVerif.Gen.PrecLevels
 namespace MechVerif.Prec
 
 variable {α β : Type}
 
-/-- every operator of the flat formula belongs to one of the grammar levels 1 … N -/
-def OpsIn (N : Nat) (rest : Rest α) : Prop := ∀ x ∈ rest, 1 ≤ x.1.lvl ∧ x.1.lvl ≤ N
-
 /-- The parse tree is faithful to the text: its in-order traversal is the flat formula
     (first operand, then the operator/operand pairs it consumed). -/
 theorem C02_parse_inorder (N : Nat) (a : α) (rest : Rest α) (h : OpsIn N rest) :
-    (parseFormula N a rest).1.first = a ∧ rest = (parseFormula N a rest).1.tail ++ (parseFormula N a rest).2 := by
-  have := parseLevel_ok N 1 a rest (fun e he => by have := h e he; omega)
-  exact ⟨this.first, this.split⟩
+    (parseFormula N a rest).1.first = a ∧ rest = (parseFormula N a rest).1.tail ++ (parseFormula N a rest).2 :=
+  parse_inorder N a rest h
 
 /-- … and it accounts for the whole formula. -/
 theorem C02_parse_consumes_all (N : Nat) (a : α) (rest : Rest α) (h : OpsIn N rest) :
-    (parseFormula N a rest).2 = [] ∧ (parseFormula N a rest).1.tail = rest := by
-  have hk := parseLevel_ok N 1 a rest (fun e he => by have := h e he; omega)
-  have hnil : (parseFormula N a rest).2 = [] := by
-    cases hr : (parseFormula N a rest).2 with
-    | nil => rfl
-    | cons x r' =>
-      obtain ⟨o, b⟩ := x
-      have hlt := hk.below o b r' hr
-      have hmem : (o, b) ∈ rest := by
-        rw [hk.split]; exact List.mem_append_right _ (by unfold parseFormula at hr; rw [hr]; exact List.mem_cons_self)
-      have h1 : 1 ≤ o.lvl := (h (o, b) hmem).1
-      omega
-  refine ⟨hnil, ?_⟩
-  have := hk.split
-  unfold parseFormula at hnil
-  rw [hnil, List.append_nil] at this
-  exact this.symm
+    (parseFormula N a rest).2 = [] ∧ (parseFormula N a rest).1.tail = rest :=
+  parse_consumes_all N a rest h
 
 /-- The parse tree is the documented grouping: tighter levels sit below looser ones and
     operators of one level (including `^`) group from the left. -/
 theorem C02_parse_wellgrouped (N : Nat) (a : α) (rest : Rest α) (h : OpsIn N rest) :
     WellGrouped (parseFormula N a rest).1 :=
-  (parseLevel_ok N 1 a rest (fun e he => by have := h e he; omega)).wg
+  parse_wellgrouped N a rest h
 
 /-- The documented grouping is unique, so the parser computes *the* grouping: any
     well-grouped tree with the same in-order sequence is the parse tree. -/
 theorem C02_grouping_unique (N : Nat) (a : α) (rest : Rest α) (h : OpsIn N rest) (t : Tree α)
-    (hwg : WellGrouped t) (hf : t.first = a) (ht : t.tail = rest) : (parseFormula N a rest).1 = t := by
-  apply wellgrouped_unique _ t (C02_parse_wellgrouped N a rest h) hwg
-  · rw [(C02_parse_inorder N a rest h).1, hf]
-  · rw [(C02_parse_consumes_all N a rest h).2, ht]
+    (hwg : WellGrouped t) (hf : t.first = a) (ht : t.tail = rest) : (parseFormula N a rest).1 = t :=
+  grouping_unique N a rest h t hwg hf ht
 
 /-- An unparenthesised formula evaluates to the value of its documented grouping, for
     every operand evaluation and every operator semantics. -/
@@ -113,3 +92,70 @@ example : OpsIn 7 [(plus, (2 : Nat)), (times, 3), (pow, 4), (pow, 5), (gt, 6)] :
   intro x hx; simp at hx; rcases hx with h | h | h | h | h <;> subst h <;> decide
 
 end MechVerif.Prec
+
+/-! ## the whole formula grammar: parentheses, prefix operators, transpose (Model/Formula.lean) -/
+namespace MechVerif.Formula
+open MechVerif.Prec
+
+/-- A formula with any nesting of parentheses, prefix `-` / `!` and transposes is read as the tree
+    it is the text of: inside every pair of parentheses, and at the top, the operators are grouped
+    by level and from the left; for every amount of fuel that covers the size of the text and
+    whatever follows the formula (`)`, the end, anything that continues neither an operand nor
+    the operator chain). -/
+theorem C02_nested_formula_parse (g : Gram) (t : Trm) (h : okT g t) (n : Nat) (hn : costT t + 2 ≤ n)
+    (rest : List Tok) (hr : NoCont g rest) : pForm g n (rTrm g t ++ rest) = some (t, rest) :=
+  (rt_all g n).2.2 t hn h rest hr
+
+/-- Explicit parentheses always override the grouping by level: *any* tree over the grammar's
+    operators — grouped against the levels, to the right, in whatever way — written with parentheses
+    around each operation is read back as exactly that tree, and its value is the value of that
+    tree, for every meaning of the atoms and the operators. -/
+theorem C02_parentheses_override (g : Gram) (t : Trm) (hl : okL g t) (hops : OpsIn g.N t.tail)
+    (n : Nat) (hn : costF (parenAll t) ≤ n) (rest : List Tok) (hr : ∀ t r, rest = t :: r → t ≠ .quote)
+    {β : Type} (atom : Nat → β) (neg not tr : β → β) (ap : Op → β → β → β) :
+    pFac g n (rFac g (parenAll t) ++ rest) = some (parenAll t, rest) ∧
+    evalFac atom neg not tr ap (parenAll t) = evalTrm atom neg not tr ap t :=
+  ⟨(rt_all g n).1 (parenAll t) hn (okF_parenAll g t hl hops) rest hr, eval_parenAll atom neg not tr ap t⟩
+
+/-- Prefix operators and the transpose bind tightest: in `-a o b'` the minus belongs to `a` and the
+    transpose to `b`, whatever the binary operator `o` — also for `^`. -/
+theorem C02_prefix_postfix_bind_tightest (g : Gram) (o : Op) (ho : 1 ≤ o.lvl ∧ o.lvl ≤ g.N) (a b : Fac)
+    (ha : okF g a) (hb : okF g b) (hbb : b.isBase = true) (n : Nat) (hn : costF a + costF b + 7 ≤ n) :
+    pForm g n (.dash :: rFac g a ++ g.opTok o :: rFac g b ++ [.quote]) =
+      some (.node (.leaf (.neg a)) o (.leaf (.tr b)), []) := by
+  have hok : okT g (.node (.leaf (.neg a)) o (.leaf (.tr b))) := by
+    refine ⟨⟨?_, ?_, trivial, trivial⟩, ?_, ?_⟩
+    · intro x hx; simp [Tree.ops, Tree.tail] at hx
+    · intro x hx; simp [Tree.ops, Tree.tail] at hx
+    · intro x hx; simp only [Tree.tail, Tree.first, List.nil_append, List.mem_cons, List.not_mem_nil, or_false] at hx
+      subst hx; exact ho
+    · simp only [okL, okF]; exact ⟨ha, hbb, hb⟩
+  have := C02_nested_formula_parse g _ hok n (by simp only [costT, costF]; omega) [] (by intro t r e; cases e)
+  simpa [rTrm, rFac] using this
+
+/-- One character, two readings: after an operand `-` is subtraction, where an operand is expected
+    it is negation, so `a - - b` is `a - (-b)`. -/
+theorem C02_dash_reads_by_position (g : Gram) (hs : 1 ≤ g.sub.lvl ∧ g.sub.lvl ≤ g.N) (a b : Fac)
+    (ha : okF g a) (hb : okF g b) (n : Nat) (hn : costF a + costF b + 7 ≤ n) :
+    pForm g n (rFac g a ++ .dash :: .dash :: rFac g b) = some (.node (.leaf a) g.sub (.leaf (.neg b)), []) := by
+  have hok : okT g (.node (.leaf a) g.sub (.leaf (.neg b))) := by
+    refine ⟨⟨?_, ?_, trivial, trivial⟩, ?_, ?_⟩
+    · intro x hx; simp [Tree.ops, Tree.tail] at hx
+    · intro x hx; simp [Tree.ops, Tree.tail] at hx
+    · intro x hx; simp only [Tree.tail, Tree.first, List.nil_append, List.mem_cons, List.not_mem_nil, or_false] at hx
+      subst hx; exact hs
+    · simp only [okL, okF]; exact ⟨ha, hb⟩
+  have := C02_nested_formula_parse g _ hok n (by simp only [costT, costF]; omega) [] (by intro t r e; cases e)
+  simpa [rTrm, rFac, Gram.opTok] using this
+
+/-! ### non-vacuity: `-(1 + 2 * 3)' ^ !4 - 5` over the seven levels -/
+def g7 : Gram := ⟨7, ⟨10, 3⟩⟩
+def demo : Trm :=
+  .node (.node (.leaf (.neg (.tr (.paren (.node (.leaf (.atom 1)) plus (.node (.leaf (.atom 2)) times (.leaf (.atom 3)))))))) pow
+      (.leaf (.not (.atom 4)))) g7.sub (.leaf (.atom 5))
+example : rTrm g7 demo = [.dash, .lp, .atom 1, .op plus, .atom 2, .op times, .atom 3, .rp, .quote, .op pow, .bang, .atom 4, .dash, .atom 5] := by
+  decide
+example : (pForm g7 40 (rTrm g7 demo)).map (fun p => rTrm g7 p.1) = some (rTrm g7 demo) := by decide
+
+end MechVerif.Formula
+
